@@ -21,8 +21,8 @@ open Oryx Oryx.Res Oryx.Jose
 The RFC 7638 thumbprint input is the JSON object with exactly the required members in lexicographic
 order and no whitespace: `{"crv","kty","x","y"}` for EC and `{"e","kty","n"}` for RSA; the algorithm
 identifiers are the RFC 7518 names (a renamed or mistyped identifier changes what peers negotiate). -/
-example : Gen.Jose.ecThumbprintTemplate = "{\"crv\":\"%s\",\"kty\":\"EC\",\"x\":\"%s\",\"y\":\"%s\"}" := by decide
-example : Gen.Jose.rsaThumbprintTemplate = "{\"e\":\"%s\",\"kty\":\"RSA\",\"n\":\"%s\"}" := by decide
+example : Gen.Jose.ecThumbprintShape = "{\"crv\":\"%s\",\"kty\":\"EC\",\"x\":\"%s\",\"y\":\"%s\"}" := by decide
+example : Gen.Jose.rsaThumbprintShape = "{\"e\":\"%s\",\"kty\":\"RSA\",\"n\":\"%s\"}" := by decide
 example : [Gen.Jose.HS256, Gen.Jose.HS384, Gen.Jose.HS512, Gen.Jose.RS256, Gen.Jose.RS384, Gen.Jose.RS512,
            Gen.Jose.PS256, Gen.Jose.PS384, Gen.Jose.PS512, Gen.Jose.ES256, Gen.Jose.ES384, Gen.Jose.ES512]
         = ["HS256", "HS384", "HS512", "RS256", "RS384", "RS512", "PS256", "PS384", "PS512", "ES256", "ES384", "ES512"] := by decide
